@@ -309,6 +309,72 @@ def oracle(ctx, U, LA, D, rng, base):
             ctx.fail('filter_operator/constraint', '|F B - Bf| = %.3g on rows whose pattern allows the constraint' % res[okrows].max(), base)
     except Exception as e:   # noqa
         ctx.fail('filter_operator/raises', repr(e), base)
+    # the same projection with a candidate of small magnitude (B and Bf in other units), and with TWO candidates held in
+    # column-major (Fortran) order -- the memory layout of B is none of the routine's business
+    for tag, Bv, Bfv in (('B*1e-6', Bm * 1e-6, Bf * 1e-6), ('B*2^-40', Bm * 2.0 ** -40, Bf * 2.0 ** -40)):
+        try:
+            with warnings.catch_warnings():
+                warnings.simplefilter('ignore')
+                Fd = U.filter_operator(sp.csr_array(D), C, Bv, Bfv).toarray()
+            res = np.abs(Fd @ Bv - Bfv).ravel()
+            okrows = [i for i in range(n) if np.abs(C.toarray()[i] * Bm.ravel()).sum() > 0]
+            ctx.count('oracle:filter_operator/' + tag)
+            if okrows and res[okrows].max() > 1e-10 * np.abs(Bfv).max():
+                ctx.fail('filter_operator/constraint/small-candidate', '%s: |F B - Bf| / |Bf| = %.3g on rows whose pattern allows the constraint'
+                         % (tag, res[okrows].max() / np.abs(Bfv).max()), dict(base, candidate=tag))
+        except Exception as e:   # noqa
+            ctx.fail('filter_operator/raises', repr(e), dict(base, candidate=tag))
+    if n >= 3:
+        B2 = np.column_stack([Bm.ravel(), np.array([rng.choice([1.0, -1.0, 2.0, 0.5, 3.0]) for _ in range(n)]) + np.arange(n) % 3])
+        Bf2 = np.column_stack([Bf.ravel(), np.array([rng.choice([1.0, -2.0, 0.5]) for _ in range(n)])])
+        Cd_ = C.toarray()
+        outs = {}
+        for order in ('C', 'F'):
+            try:
+                with warnings.catch_warnings():
+                    warnings.simplefilter('ignore')
+                    outs[order] = U.filter_operator(sp.csr_array(D), C, np.array(B2, order=order), np.array(Bf2, order=order)).toarray()
+            except Exception as e:   # noqa
+                ctx.fail('filter_operator/raises', repr(e), dict(base, candidates=2, order=order))
+        if len(outs) == 2:
+            ctx.count('oracle:filter_operator/memory-order')
+            ok2 = [i for i in range(n) if np.linalg.matrix_rank(B2[np.flatnonzero(Cd_[i])]) == 2]
+            if _nn(np.abs(outs['C'] - outs['F']).max()) > 1e-10 * (1 + np.abs(outs['C']).max()):
+                ctx.fail('filter_operator/memory-order', 'column-major candidates give another operator than the same candidates row-major (max diff %.3g)'
+                         % np.abs(outs['C'] - outs['F']).max(), dict(base, candidates=2))
+            elif ok2 and np.abs(outs['F'] @ B2 - Bf2)[ok2].max() > 1e-8 * (1 + np.abs(Bf2).max()):
+                ctx.fail('filter_operator/constraint/two-candidates', '|F B - Bf| = %.3g on rows whose pattern supports both constraints'
+                         % np.abs(outs['F'] @ B2 - Bf2)[ok2].max(), dict(base, candidates=2))
+    # pseudo-inverses of stacked small blocks (1x1 .. 3x3) in other units: pinv(s B) = pinv(B) / s
+    for bsz in (1, 2, 3):
+        blk = np.array([[[rng.choice([-2.0, -1.0, 0.5, 1.0, 3.0, 0.0]) for _ in range(bsz)] for _ in range(bsz)] for _ in range(4)])
+        blk += np.eye(bsz) * np.array([rng.choice([0.0, 1.0, 4.0]) for _ in range(4)])[:, None, None]
+        ref = np.array([np.linalg.pinv(b_) for b_ in blk])
+        for sc in (1.0, 2.0 ** -45, 1e-12, 2.0 ** 40):
+            work = (blk * sc).copy()
+            LA.pinv_array(work)
+            ctx.count('oracle:pinv_array')
+            well = [k for k in range(4) if np.linalg.matrix_rank(blk[k]) in (0, bsz) and (np.linalg.matrix_rank(blk[k]) == 0 or np.linalg.cond(blk[k]) < 1e6)]
+            if well and _nn(np.abs(work[well] * sc - ref[well]).max()) > 1e-8 * (1 + np.abs(ref[well]).max()):
+                ctx.fail('pinv_array/not-scale-invariant', '%dx%d blocks scaled by %g: pinv(s B) != pinv(B) / s' % (bsz, bsz, sc), dict(blocks=blk.tolist(), scale=sc))
+                break
+    # symmetric rescaling of INTEGER matrices in every input class: the result is a floating-point matrix with unit diagonal
+    Si = (np.round(np.abs(D)) + np.round(np.abs(D)).T).astype(np.int64) + np.diag([rng.choice([2, 3, 5]) for _ in range(n)]).astype(np.int64)
+    di = np.diag(Si).astype(float)
+    want_i = Si / np.sqrt(np.outer(di, di))
+    for fmt in ('csr', 'csc', 'coo', 'lil', 'dia', 'bsr'):
+        try:
+            with warnings.catch_warnings():
+                warnings.simplefilter('ignore')
+                _, _, DADi = U.symmetric_rescaling(sp.csr_array(Si).asformat(fmt))
+        except Exception as e:   # noqa
+            ctx.fail('symmetric_rescaling/%s/int/raises' % fmt, repr(e), dict(base, format=fmt))
+            continue
+        ctx.count('oracle:symmetric_rescaling/int')
+        got_i = DADi.toarray() if sp.issparse(DADi) else np.asarray(DADi)
+        if _nn(np.abs(got_i - want_i).max()) > 1e-13:
+            ctx.fail('symmetric_rescaling/%s/integer-input' % fmt, 'integer matrix in %s format: D^-1/2 A D^-1/2 wrong (max deviation %.3g, result dtype %s)'
+                     % (fmt, np.abs(got_i - want_i).max(), got_i.dtype), dict(base, format=fmt, matrix=Si.tolist()))
     ctx.case(('oracle', repr(base['dense'])), True)
 
 
